@@ -160,10 +160,10 @@ func connectComponent(wf *sp.Workflow, w *WF, i int, procs []outPorter, rt *Runt
 			up := procs[e.Node].OutPort(e.Port)
 			if w.Nodes[e.Node].Rec || n.Rec {
 				r := newRecorder(wf, "rec_"+n.Name+"_"+in.Name+"_"+w.Nodes[e.Node].Name+"_"+e.Port, recKey(w.Nodes[e.Node].Name, e.Port, n.Name, in.Name), rt)
-				r.InPort("in").From(up)
-				ca.in(in.Name).From(r.OutPort("out"))
+				rt.connect(r.InPort("in"), up)
+				rt.connect(ca.in(in.Name), r.OutPort("out"))
 			} else {
-				ca.in(in.Name).From(up)
+				rt.connect(ca.in(in.Name), up)
 			}
 		}
 	}
@@ -173,7 +173,7 @@ func connectComponent(wf *sp.Workflow, w *WF, i int, procs []outPorter, rt *Runt
 			continue
 		}
 		if ps.From != nil {
-			ca.inp(ps.Name).From(procs[ps.From.Node].OutParamPort(ps.From.Port))
+			rt.connectP(ca.inp(ps.Name), procs[ps.From.Node].OutParamPort(ps.From.Port))
 		} else {
 			ca.inp(ps.Name).FromStr(ps.Vals...)
 		}
